@@ -1765,6 +1765,59 @@ fn feerate_bump<F: FeeEstimator, L: Logger>(
 	Some((new_fee, new_feerate))
 }
 
+/// [`feerate_bump`] for the external verification harness (add-only accessor, C06/C07).
+#[cfg(feature = "verif_hooks")]
+pub(crate) fn verif_feerate_bump<F: FeeEstimator, L: Logger>(
+	predicted_weight: u64, input_amounts: u64, dust_limit_sats: u64, previous_feerate: u64,
+	feerate_strategy: &FeerateStrategy, conf_target: ConfirmationTarget,
+	fee_estimator: &LowerBoundedFeeEstimator<F>, logger: &L,
+) -> Option<(u64, u64)> {
+	feerate_bump(
+		predicted_weight,
+		input_amounts,
+		dust_limit_sats,
+		previous_feerate,
+		feerate_strategy,
+		conf_target,
+		fee_estimator,
+		logger,
+	)
+}
+
+/// [`compute_fee_from_spent_amounts`] for the external verification harness (add-only accessor,
+/// C06/C07).
+#[cfg(feature = "verif_hooks")]
+pub(crate) fn verif_compute_fee_from_spent_amounts<F: FeeEstimator, L: Logger>(
+	input_amounts: u64, predicted_weight: u64, conf_target: ConfirmationTarget,
+	fee_estimator: &LowerBoundedFeeEstimator<F>, logger: &L,
+) -> Option<(u64, u64)> {
+	compute_fee_from_spent_amounts(
+		input_amounts,
+		predicted_weight,
+		conf_target,
+		fee_estimator,
+		logger,
+	)
+}
+
+#[cfg(feature = "verif_hooks")]
+impl PackageTemplate {
+	/// A template over the given inputs, for running [`Self::get_height_timer`] /
+	/// [`Self::package_locktime`] on synthetic input lists (add-only accessor, C06/C07).
+	pub(crate) fn verif_from_inputs(
+		inputs: Vec<(BitcoinOutPoint, PackageSolvingData)>, counterparty_spendable_height: u32,
+	) -> Self {
+		let malleability = PackageSolvingData::map_output_type_flags(&inputs[0].1);
+		PackageTemplate {
+			inputs,
+			malleability,
+			counterparty_spendable_height,
+			feerate_previous: 0,
+			height_timer: 0,
+		}
+	}
+}
+
 #[cfg(test)]
 mod tests {
 	use crate::chain::package::{
